@@ -199,8 +199,63 @@ func init() {
 			})
 			r.Add("seeds", 1)
 		}
+		// line endings: files written with CR LF throughout, with tokens that span lines (a raw string literal
+		// terminal, a multi-line action, a multi-line file header): the markdown file and the plain file made of its
+		// block contents must still be read as the same grammar
+		for _, seed := range []gram.Seed{
+			{Name: "crlf-rawstring", Text: "a : 'a' ;\nS : a `x\ny` | `->\n` S ;\n"},
+			{Name: "crlf-action", Text: "a : 'a' ;\nS : a << func() (interface{}, error) {\n\treturn \"line1\\n\" + `raw\nraw`, nil\n}() >> ;\n"},
+			{Name: "crlf-header", Text: "a : 'a' ;\n<< import (\n\t\"fmt\"\n)\n\nvar _ = fmt.Sprint >>\nS : a << fmt.Sprint($0), nil >> ;\n"},
+			gram.Seeds()[0], gram.Seeds()[1],
+		} {
+			toks, err := gram.Lexemes(seed.Text)
+			if err != nil {
+				ev.Inconsistent("seed %s: %v", seed.Name, err)
+			}
+			var lines []string
+			cur := ""
+			for _, tk := range toks {
+				if cur != "" {
+					cur += " "
+				}
+				cur += tk.Text
+				if tk.Kind == ";" || tk.Kind == "g_sdt_lit" && cur == tk.Text {
+					lines = append(lines, cur)
+					cur = ""
+				}
+			}
+			if cur != "" {
+				lines = append(lines, cur)
+			}
+			crlf := func(s string) string { return strings.ReplaceAll(s, "\n", "\r\n") }
+			canon := crlf(strings.Join(lines, "\n") + "\n")
+			var base string
+			var baseFiles map[string]string
+			var baseOut *GenOut
+			sw.run([]string{canon}, []string{"-a"}, false, false, func(o *GenOut) { base, baseFiles = outcome(o); baseOut = o })
+			for _, split := range []uint{0, 1<<(len(lines)-1) - 1} {
+				for _, p := range proseMenu[:2] {
+					for _, tail := range []string{"", "\x00no-final-newline"} {
+						md, _ := mdFile(lines, split, p.text, tail)
+						md = crlf(md)
+						name := fmt.Sprintf("CRLF split=%b prose=%s tail=%q", split, p.name, tail)
+						o := sw.runMD(md, []string{"-a"})
+						sum, files := outcome(o)
+						os.RemoveAll(filepath.Dir(o.Dir))
+						r.Add("evaluations", 1)
+						r.Add("markdown_files_with_crlf_line_endings", 1)
+						if sum != base {
+							r.Violate("c19", seed.Name+"/"+name, fmt.Sprintf("seed %s with CR LF line endings as markdown (%s): exit %d vs %d for the plain grammar; differing files: %s; %s", seed.Name, name, o.Res.Exit, baseOut.Res.Exit, diffFiles(baseFiles, files), oneLine(o.Res.Stdout)),
+								map[string]any{"seed": seed.Name, "markdown": md, "bnf": canon, "stdout": o.Res.Stdout})
+						} else {
+							r.Distinct(seed.Name + "/" + name)
+						}
+					}
+				}
+			}
+		}
 		sw.checkCross()
-		r.Set("rule", "per seed: the grammar split into bare ``` fenced blocks at every subset of its line boundaries, surrounded by prose from a menu (none, plain, heading with grammar-like text, inline code and tabs, non-ASCII, CRLF, indented/quote, a byte order mark directly before a fence / on a line of its own / before text; with and without trailing prose lacking a final newline; closing fence as the very end of the file, followed by blank lines, CRLF or a space): gocc x.md must give the same exit status, stdout and byte-identical packages as gocc on the concatenated block contents; plus an illegal character (?) planted at token positions: the line:column of the diagnostic must be the token's position in the markdown file; distinct = (seed, split, prose) and (seed, planted position)")
+		r.Set("rule", "per seed: the grammar split into bare ``` fenced blocks at every subset of its line boundaries, surrounded by prose from a menu (none, plain, heading with grammar-like text, inline code and tabs, non-ASCII, CRLF, indented/quote, a byte order mark directly before a fence / on a line of its own / before text; with and without trailing prose lacking a final newline; closing fence as the very end of the file, followed by blank lines, CRLF or a space): gocc x.md must give the same exit status, stdout and byte-identical packages as gocc on the concatenated block contents; plus an illegal character (?) planted at token positions: the line:column of the diagnostic must be the token's position in the markdown file; plus files with CR LF line endings throughout whose tokens span lines (raw string literal terminal, multi-line action, multi-line header); distinct = (seed, split, prose) and (seed, planted position)")
 		return r.Finish(nil)
 	}
 }
